@@ -38,4 +38,5 @@ def main(tier):
     chk.run("R-INTERMEDIATE", RG.intermediate, r, floor=2)
     chk.run("R-RENDERCONST", RG.renderconst, r, floor=30)
     chk.run("R-PATHEND", RR.pathend, r, floor=2, modules=("compiler/front_end/expression_bounds.py",))
+    chk.run("R-CONSTAGREE", R.constagree, cx.repo, floor=3)
     return chk.finish()
